@@ -469,7 +469,21 @@ func (tb *TB) BVBin(op string, a, b *Term) *Term {
 		if a.IsConst() && !b.IsConst() {
 			a, b = b, a
 		}
+		// (x - y) + y -> x
+		if a.op == "bvsub" && a.args[1] == b {
+			return a.args[0]
+		}
+		if b.op == "bvsub" && b.args[1] == a {
+			return b.args[0]
+		}
 	case "bvsub":
+		// (x + y) - y -> x ; (y + x) - y -> x
+		if a.op == "bvadd" && a.args[1] == b {
+			return a.args[0]
+		}
+		if a.op == "bvadd" && a.args[0] == b {
+			return a.args[1]
+		}
 		if b.IsConst() && b.val.Sign() == 0 {
 			return a
 		}
@@ -775,6 +789,13 @@ func (tb *TB) Script(asserts []*Term, getValues []*Term, logicFP bool) string {
 			return n
 		}
 		if t.op == "forall" {
+			if pats := tb.patternsFor(t); len(pats) > 0 && usePatterns {
+				var pb strings.Builder
+				for _, p := range pats {
+					pb.WriteString(" :pattern (" + render(p) + ")")
+				}
+				return fmt.Sprintf("(forall ((%s %s)) (! %s%s))", t.args[0].name, t.args[0].sort, render(t.args[1]), pb.String())
+			}
 			return fmt.Sprintf("(forall ((%s %s)) %s)", t.args[0].name, t.args[0].sort, render(t.args[1]))
 		}
 		var b strings.Builder
@@ -977,6 +998,9 @@ func (tb *TB) Skolems(t *Term) []*Term {
 		if x.op == "var" && !x.bound && (strings.Contains(x.name, "!sk") || strings.HasPrefix(x.name, "crc.k")) {
 			out = append(out, x)
 		}
+		if x.op == "app" && strings.Contains(x.name, "!skf") && !x.hasBound && x.sort.K == KBV && x.sort.W == 64 {
+			out = append(out, x)
+		}
 		for _, a := range x.args {
 			rec(a)
 		}
@@ -1020,9 +1044,162 @@ func (tb *TB) polarForalls(t *Term, pol int, pos, neg map[*Term]bool) {
 	}
 }
 
+// GroundApps collects, per unary uninterpreted function over BV64 (array contents), the ground index terms it is applied to in t.
+func (tb *TB) GroundApps(t *Term, into map[string][]*Term) {
+	seen := map[int]bool{}
+	have := map[string]map[int]bool{}
+	for k, v := range into {
+		have[k] = map[int]bool{}
+		for _, x := range v {
+			have[k][x.id] = true
+		}
+	}
+	var rec func(x *Term)
+	rec = func(x *Term) {
+		if seen[x.id] {
+			return
+		}
+		seen[x.id] = true
+		if x.op == "forall" {
+			return
+		}
+		if x.op == "app" && len(x.args) == 1 && x.args[0].sort.K == KBV && x.args[0].sort.W == 64 && !x.args[0].hasBound {
+			if have[x.name] == nil {
+				have[x.name] = map[int]bool{}
+			}
+			if !have[x.name][x.args[0].id] && len(into[x.name]) < 40 {
+				have[x.name][x.args[0].id] = true
+				into[x.name] = append(into[x.name], x.args[0])
+			}
+		}
+		for _, a := range x.args {
+			rec(a)
+		}
+	}
+	rec(t)
+}
+
+// solveFor inverts a +/- chain: the value of v for which arg (containing v exactly along one +/- path) equals t.
+func (tb *TB) solveFor(arg, v, t *Term) (*Term, bool) {
+	for depth := 0; depth < 8; depth++ {
+		if arg == v {
+			return t, true
+		}
+		if len(arg.args) != 2 || (arg.op != "bvadd" && arg.op != "bvsub") {
+			return nil, false
+		}
+		x, y := arg.args[0], arg.args[1]
+		inx, iny := tb.mentions(x, v), tb.mentions(y, v)
+		if inx == iny {
+			return nil, false
+		}
+		if arg.op == "bvadd" {
+			if inx {
+				if y.hasBound {
+					return nil, false
+				}
+				t, arg = tb.BVBin("bvsub", t, y), x
+			} else {
+				if x.hasBound {
+					return nil, false
+				}
+				t, arg = tb.BVBin("bvsub", t, x), y
+			}
+		} else {
+			if inx {
+				if y.hasBound {
+					return nil, false
+				}
+				t, arg = tb.BVBin("bvadd", t, y), x
+			} else {
+				if x.hasBound {
+					return nil, false
+				}
+				t, arg = tb.BVBin("bvsub", x, t), y
+			}
+		}
+	}
+	return nil, false
+}
+
+// unifyFor matches the index pattern pat (which may contain bound variables) against the ground term t and returns the
+// value v must take.  Other bound variables act as wildcards.  Syntactic, with bvadd commutativity and the +/- chain
+// inversion of solveFor as a fallback.
+func (tb *TB) unifyFor(pat, v, t *Term, depth int) (*Term, bool) {
+	if pat == v {
+		return t, true
+	}
+	if depth > 6 || !tb.mentions(pat, v) {
+		return nil, false
+	}
+	if pat.op == t.op && len(pat.args) == len(t.args) && len(pat.args) > 0 && pat.name == t.name && pat.op != "var" {
+		try := func(order []int) (*Term, bool) {
+			var res *Term
+			for n, pi := range order {
+				pa, ta := pat.args[pi], t.args[n]
+				if tb.mentions(pa, v) {
+					r, ok := tb.unifyFor(pa, v, ta, depth+1)
+					if !ok {
+						return nil, false
+					}
+					if res != nil && res != r {
+						return nil, false
+					}
+					res = r
+				} else if !pa.hasBound && pa != ta {
+					return nil, false
+				}
+			}
+			return res, res != nil
+		}
+		ident := make([]int, len(pat.args))
+		for n := range ident {
+			ident[n] = n
+		}
+		if r, ok := try(ident); ok {
+			return r, true
+		}
+		if pat.op == "bvadd" && len(pat.args) == 2 {
+			if r, ok := try([]int{1, 0}); ok {
+				return r, true
+			}
+		}
+	}
+	return tb.solveFor(pat, v, t)
+}
+
+// matchPoints: values for the bound variable v of a quantifier body under which some array read f(arg(v)) of the body
+// coincides with a ground read f(t) (single-pattern E-matching done here).
+func (tb *TB) matchPoints(body, v *Term, apps map[string][]*Term) []*Term {
+	var out []*Term
+	got := map[int]bool{}
+	seen := map[int]bool{}
+	var rec func(x *Term)
+	rec = func(x *Term) {
+		if seen[x.id] {
+			return
+		}
+		seen[x.id] = true
+		if x.op == "app" && len(x.args) == 1 && len(apps[x.name]) > 0 && tb.mentions(x.args[0], v) {
+			for _, t := range apps[x.name] {
+				if p, ok := tb.unifyFor(x.args[0], v, t, 0); ok && !p.hasBound && !got[p.id] {
+					got[p.id] = true
+					out = append(out, p)
+				}
+			}
+		}
+		for _, a := range x.args {
+			rec(a)
+		}
+	}
+	rec(body)
+	return out
+}
+
 // InstantiateForalls returns consequences of the hypothesis a obtained by instantiating its positively
-// occurring universal quantifiers at the given ground terms (a |= every returned term).
-func (tb *TB) InstantiateForalls(a *Term, at []*Term, rounds, budget int) []*Term {
+// occurring universal quantifiers at the given ground terms and at the match points against the goal's
+// array reads (a |= every returned term).
+func (tb *TB) InstantiateForalls(a *Term, at []*Term, apps map[string][]*Term, rounds, budget int) []*Term {
 	var out []*Term
 	seenOut := map[int]bool{a.id: true}
 	work := []*Term{a}
@@ -1036,7 +1213,19 @@ func (tb *TB) InstantiateForalls(a *Term, at []*Term, rounds, budget int) []*Ter
 					continue
 				}
 				v, body := q.args[0], q.args[1]
-				for _, g := range at {
+				points := append([]*Term(nil), at...)
+				for _, mp := range tb.matchPoints(body, v, apps) {
+					dup := false
+					for _, p := range points {
+						if p == mp {
+							dup = true
+						}
+					}
+					if !dup && len(points) < 16 {
+						points = append(points, mp)
+					}
+				}
+				for _, g := range points {
 					if g.sort != v.sort {
 						continue
 					}
@@ -1055,5 +1244,174 @@ func (tb *TB) InstantiateForalls(a *Term, at []*Term, rounds, budget int) []*Ter
 		}
 		work = next
 	}
+	return out
+}
+
+// WeakenQ returns a quantifier-free consequence of the hypothesis t: quantified subformulas in positive position
+// become true, in negative position false (t |= WeakenQ(t, 1)).
+func (tb *TB) WeakenQ(t *Term, pol int) *Term {
+	if !t.hasQ {
+		return t
+	}
+	cut := func() *Term {
+		if pol > 0 {
+			return tb.True()
+		}
+		return tb.False()
+	}
+	switch t.op {
+	case "forall":
+		return cut()
+	case "and":
+		var as []*Term
+		for _, a := range t.args {
+			as = append(as, tb.WeakenQ(a, pol))
+		}
+		return tb.And(as...)
+	case "or":
+		var as []*Term
+		for _, a := range t.args {
+			as = append(as, tb.WeakenQ(a, pol))
+		}
+		return tb.Or(as...)
+	case "not":
+		return tb.Not(tb.WeakenQ(t.args[0], -pol))
+	case "=>":
+		return tb.Implies(tb.WeakenQ(t.args[0], -pol), tb.WeakenQ(t.args[1], pol))
+	case "ite":
+		if t.sort.K == KBool && !t.args[0].hasQ {
+			return tb.Ite(t.args[0], tb.WeakenQ(t.args[1], pol), tb.WeakenQ(t.args[2], pol))
+		}
+	}
+	return cut()
+}
+
+// InstAll returns a consequence of the hypothesis h in which every positively occurring universal quantifier is
+// replaced by the conjunction of its instances at the given points and at the match points of its array reads
+// against apps (recursively, depth levels of nesting).  Quantifiers in negative position are left alone.
+func (tb *TB) InstAll(h *Term, points []*Term, apps map[string][]*Term, depth int, pol int) *Term {
+	if !h.hasQ {
+		return h
+	}
+	switch h.op {
+	case "forall":
+		if pol <= 0 || depth <= 0 {
+			return h
+		}
+		v, body := h.args[0], h.args[1]
+		// match points first (they are what E-matching would pick), then the skolem / witness points
+		var pts []*Term
+		mps := tb.matchPoints(body, v, apps)
+		// candidates built from existential witnesses first
+		sort.SliceStable(mps, func(i, j int) bool {
+			return len(tb.Skolems(mps[i])) > 0 && len(tb.Skolems(mps[j])) == 0
+		})
+		for _, mp := range mps {
+			if len(pts) < 10 {
+				pts = append(pts, mp)
+			}
+		}
+		for _, sp := range points {
+			dup := false
+			for _, p := range pts {
+				if p == sp {
+					dup = true
+				}
+			}
+			if !dup && len(pts) < 14 {
+				pts = append(pts, sp)
+			}
+		}
+		if os.Getenv("GOVC_AIDDEBUG") != "" {
+			fmt.Fprintf(os.Stderr, "inst depth=%d var=%s points=%d (match %d)\n", depth, v.name, len(pts), len(tb.matchPoints(body, v, apps)))
+		}
+		var cs []*Term
+		for _, p := range pts {
+			if p.sort != v.sort {
+				continue
+			}
+			cs = append(cs, tb.InstAll(tb.Subst(body, v, p), points, apps, depth-1, pol))
+		}
+		return tb.And(cs...)
+	case "and":
+		var as []*Term
+		for _, a := range h.args {
+			as = append(as, tb.InstAll(a, points, apps, depth, pol))
+		}
+		return tb.And(as...)
+	case "or":
+		var as []*Term
+		for _, a := range h.args {
+			as = append(as, tb.InstAll(a, points, apps, depth, pol))
+		}
+		return tb.Or(as...)
+	case "not":
+		return tb.Not(tb.InstAll(h.args[0], points, apps, depth, -pol))
+	case "=>":
+		return tb.Implies(tb.InstAll(h.args[0], points, apps, depth, -pol), tb.InstAll(h.args[1], points, apps, depth, pol))
+	case "ite":
+		if h.sort.K == KBool && !h.args[0].hasQ {
+			return tb.Ite(h.args[0], tb.InstAll(h.args[1], points, apps, depth, pol), tb.InstAll(h.args[2], points, apps, depth, pol))
+		}
+	}
+	return h
+}
+
+var usePatterns = os.Getenv("GOVC_NOPATTERNS") == ""
+
+// patternsFor: E-matching triggers for a quantifier: the array reads of its body that mention its variable and no
+// variable bound further inside.
+func (tb *TB) patternsFor(q *Term) []*Term {
+	v, body := q.args[0], q.args[1]
+	inner := map[*Term]bool{}
+	seen := map[int]bool{}
+	var scan func(x *Term)
+	scan = func(x *Term) {
+		if seen[x.id] {
+			return
+		}
+		seen[x.id] = true
+		if x.op == "forall" {
+			inner[x.args[0]] = true
+		}
+		for _, a := range x.args {
+			scan(a)
+		}
+	}
+	scan(body)
+	var out []*Term
+	got := map[int]bool{}
+	seen2 := map[int]bool{}
+	var mentionsInner func(x *Term) bool
+	mentionsInner = func(x *Term) bool {
+		if inner[x] {
+			return true
+		}
+		if !x.hasBound {
+			return false
+		}
+		for _, a := range x.args {
+			if mentionsInner(a) {
+				return true
+			}
+		}
+		return false
+	}
+	var rec func(x *Term)
+	rec = func(x *Term) {
+		if seen2[x.id] || !x.hasBound {
+			return
+		}
+		seen2[x.id] = true
+		if x.op == "app" && tb.mentions(x, v) && !mentionsInner(x) && !got[x.id] && len(out) < 6 {
+			got[x.id] = true
+			out = append(out, x)
+			return
+		}
+		for _, a := range x.args {
+			rec(a)
+		}
+	}
+	rec(body)
 	return out
 }
